@@ -74,7 +74,12 @@ def impl(case):
                     w.array_shape = None if op["v"] is None else tuple(op["v"])
                 else:
                     b = tuple((float(lo), float(hi)) for lo, hi in op["v"])
-                    w.bounding_box = b[0] if len(b) == 1 else b
+                    if op.get("as_dict") and len(b) > 1:
+                        # the box given per input name, the keys NOT in axis order
+                        names_ = list(w.forward_transform.inputs)
+                        w.bounding_box = {names_[i]: b[i] for i in reversed(range(len(b)))}
+                    else:
+                        w.bounding_box = b[0] if len(b) == 1 else b
                 res = "ok"
             except Exception as e:
                 res = C.exc_enum(e)
@@ -347,7 +352,7 @@ def gen(rng, tier):
         for _o in range(rng.randint(1, 8)):
             k = rng.choice(["pixel", "array", "pixel", "array", "bbox"])
             if k == "bbox":
-                ops.append({"k": "bbox", "v": [[-0.5, rng.randint(1, 100) - 0.5] for _i in range(ndim)]})
+                ops.append({"k": "bbox", "v": [[-0.5, rng.randint(1, 100) - 0.5] for _i in range(ndim)], "as_dict": rng.random() < 0.4})
             else:
                 ln = ndim if rng.random() < 0.7 else max(1, ndim + rng.choice([-1, 1, 2]))
                 if k == "array" and ln != ndim:
